@@ -323,6 +323,12 @@ class Channel(BaseChannel):
         for message in self.build_inbound_messages(break_on_empty=True,
                                                    auto_decode=auto_decode):
             consumer_tag = message._method.get('consumer_tag')
+            if consumer_tag not in self._consumer_callbacks:
+                # The consume call that created this consumer may not have
+                # stored its callback yet; it does so before it releases
+                # the channel lock.
+                with self.lock:
+                    pass
             if to_tuple:
                 # noinspection PyCallingNonCallable
                 self._consumer_callbacks[consumer_tag](*message.to_tuple())
